@@ -5,6 +5,7 @@ CONSTANT M = 3
 CONSTANT MaxLen = 4
 CONSTANT Emit = FALSE
 INVARIANT DataValid
+INVARIANT DataValidDeficit
 INVARIANT DataMonotone
 INVARIANT DataDistribution
 INVARIANT EmpiConsistent
